@@ -227,8 +227,30 @@ theorem allowRhs_congr {a b : Node} (h : a.ctorIdx = b.ctorIdx) : allowRhs a = a
   simp only [allowRhs, isBinop_ctorIdx, isConst_ctorIdx, isId_ctorIdx, isUnop_ctorIdx, h]
 
 theorem unopArg_congr {a b : Node} (h : a.ctorIdx = b.ctorIdx) :
-    (a.isId || a.isConst || a.isCast || a.isUnop) = (b.isId || b.isConst || b.isCast || b.isUnop) := by
-  simp only [isCast_ctorIdx, isConst_ctorIdx, isId_ctorIdx, isUnop_ctorIdx, h]
+    (a.isId || a.isConst || a.isUnop) = (b.isId || b.isConst || b.isUnop) := by
+  simp only [isConst_ctorIdx, isId_ctorIdx, isUnop_ctorIdx, h]
+
+theorem rmCast_nc (n : Node) (h : n.isCast = false) : n.rmCast = n := by
+  cases n
+  case cast => cases h
+  all_goals rfl
+
+/-- the removal pass keeps the class of a node under its casts -/
+theorem covN_rmCast_ctorIdx (e : Node) :
+    ∀ a, covN e = .ok a → a.mod.rmCast.ctorIdx = e.rmCast.ctorIdx := by
+  intro a h
+  by_cases hc : e.isCast = true
+  · cases e with
+    | cast e' =>
+      simp only [covN_cast, bind_eq_ok, Except.ok.injEq] at h
+      obtain ⟨a', ha', rfl⟩ := h
+      simp only [Node.rmCast]
+      exact covN_rmCast_ctorIdx e' a' ha'
+    | _ => cases hc
+  · have hc : e.isCast = false := by simpa using hc
+    have hi := covN_ctorIdx e a h
+    have h1 : a.mod.isCast = false := by rw [isCast_ctorIdx, hi, ← isCast_ctorIdx]; exact hc
+    rw [rmCast_nc _ h1, rmCast_nc _ hc]; exact hi
 
 theorem isCompound_congr {a b : Node} (h : a.ctorIdx = b.ctorIdx) :
     a.isCompound = b.isCompound := by
@@ -297,7 +319,7 @@ theorem covN_mod_full :
     · rename_i hc
       simp only [bind_eq_ok, Except.ok.injEq] at h
       obtain ⟨a, ha, rfl⟩ := h
-      rw [← unopArg_congr (covN_ctorIdx e a ha)] at hc
+      rw [← unopArg_congr (covN_rmCast_ctorIdx e a ha)] at hc
       simp only [covN_unop, hc, if_true, covN_mod_full e a ha hu, ok_bind]
     · cases h; cases hu
   | .assign op l r => by
